@@ -11,7 +11,7 @@ CFG = (65, 2)
 INDICATORS = {
     "crate::algorithms::carrying_add": 1, "crate::algorithms::borrowing_sub": 1,
     "crate::algorithms::mul::addmul": None, "crate::algorithms::mul::addmul_nx1": None,
-    "crate::algorithms::mul::mul_nx1": None, "crate::algorithms::add::add_nx1": None,
+    "crate::algorithms::mul::mul_nx1": None, "crate::algorithms::mul::add_nx1": None,
     "crate::algorithms::shift::shift_left_small": None, "crate::algorithms::shift::shift_right_small": None,
 }
 
@@ -160,7 +160,7 @@ def flag(ctx, config="all", files=None):
     prog = ctx.prog(config)
     n1 = n2 = n3 = 0
     for b in prog.fn_bodies():
-        if b["kind"] == "Closure" or not prog.is_cfg_generic(b):
+        if b["kind"] == "Closure" or (not prog.is_cfg_generic(b) and b["key"] != "crate::algorithms::mul::addmul"):
             continue
         if files and b["file"] not in files:
             continue
@@ -171,7 +171,7 @@ def flag(ctx, config="all", files=None):
             continue
         if not in_scope or b["file"].startswith("src/support"):
             continue
-        v = prog.view(b, CFG)
+        v = prog.view(b, CFG if prog.is_cfg_generic(b) else None)
         key = b["key"].replace("crate::", "")
         where = "%s:%s" % (b["file"], b["line"])
         # ---- clause 1: indicators
@@ -211,7 +211,21 @@ def flag(ctx, config="all", files=None):
             used = d == 0 or direct_switch or (fw is not None and (0 in fw.tainted or fw.branches or
                                                          any(v.is_arg(x) for x in fw.tainted)))
             k1 = "%s|indicator:%s" % (key, (n or "?").split("::")[-1])
-            if used:
+            if not used and not returns_flag(b) and b.get("output", {}).get("n") == "bool":
+                # the function's result IS the flag: a later indicator adds nothing on a path where the flag has already
+                # been set to `true` for good (`overflow = true; ...; addmul_nx1(..);` in the truncated-row branch)
+                ret = Bwd(v)
+                ret.local(0)
+                doms = set(v.dom.get(bi, ())) | {bi}
+                for bj in doms:
+                    for s in v.blocks[bj]["stmts"]:
+                        if s["s"] == "assign" and not s["pl"]["p"] and s["pl"]["l"] in ret.seen and s["rv"]["r"] == "use" \
+                                and s["rv"]["a"].get("o") == "const" and v.const_of_operand(s["rv"]["a"]) == 1 \
+                                and v.local_tyname(s["pl"]["l"]) == "bool":
+                            used = "already-true"
+            if used == "already-true":
+                rep.ok(k1, v.where(bi), "dropped on a path where the returned flag has already been set to true")
+            elif used:
                 rep.ok(k1, v.where(bi), "")
             else:
                 rep.violation(k1, v.where(bi), "the overflow/carry indicator returned by %s is dropped in %s: it "
@@ -590,4 +604,162 @@ def flag_range(ctx, config="all", ops=None):
             rep.ok(key + "|flag-range", where, "indicator not constant where it must vary, false feasible for BITS == 0")
     rep.analysed = {"build_config": config, "function_configurations": n}
     rep.floor("function_configurations", n, len(ctx.cfgs()) * (len(ops) if ops else len(FLAGGED_OPS)))
+    return rep
+
+
+# ---------------------------------------------------------------------------------------------------------------
+# R-CARRY: a carry / borrow word, once produced, is read before it is overwritten or abandoned
+PAIR_PRODUCERS = {
+    "crate::algorithms::carrying_add": 1, "crate::algorithms::borrowing_sub": 1,
+    "crate::algorithms::ops::adc": 1, "crate::algorithms::ops::sbb": 1,
+}
+
+
+def _producer_field(name):
+    if name is None:
+        return None
+    if name in PAIR_PRODUCERS:
+        return PAIR_PRODUCERS[name]
+    last = name.split("::")[-1]
+    if last == "split" and "DoubleWord" in name:
+        return 1
+    if name.startswith("core::num::<impl u") and last in ("overflowing_add", "overflowing_sub", "overflowing_mul",
+                                                          "carrying_add", "borrowing_sub", "carrying_mul", "widening_mul"):
+        return 1
+    return None
+
+
+def _reads(op, holders):
+    """Does the operand read one of the holders?  holders: set of ("l", local) / ("f", local, field)."""
+    if op.get("o") not in ("copy", "move"):
+        return None
+    l, p = op["l"], op["p"]
+    for h in holders:
+        if h[0] == "l" and h[1] == l:
+            return h
+        if h[0] == "f" and h[1] == l and (not p or (isinstance(p[0], list) and p[0][0] == "f" and p[0][1] == h[2])):
+            return h
+    for e in p:
+        if isinstance(e, list) and e[0] == "idx":
+            for h in holders:
+                if h[0] == "l" and h[1] == e[1]:
+                    return h
+    return None
+
+
+def carry_liveness(ctx, config="all", files=(), label="", floor=0):
+    """R-CARRY: in the given files, for every call that returns a (low, carry) pair -- carrying_add, borrowing_sub,
+    adc, sbb, DoubleWord::split, u64::overflowing_* -- the carry component is READ (used in arithmetic, a comparison,
+    a call, a store, or returned) on every path before every local that holds it is overwritten or the function
+    returns.  Plain copies / moves pass the obligation on to the destination.  Flow-sensitive walk of the MIR CFG."""
+    rep = Report("R-CARRY", "a carry / borrow word produced by a limb primitive (carrying_add, borrowing_sub, adc, sbb, "
+                 "DoubleWord::split, u64::overflowing_*) is read on every path before it is overwritten or the function "
+                 "returns: no carry between limbs is silently dropped (flow-sensitive liveness over the MIR CFG; copies "
+                 "pass the obligation on)")
+    prog = ctx.prog(config)
+    n_sites = 0
+    for b in prog.fn_bodies():
+        if b["file"] not in files:
+            continue
+        v = prog.view(b, CFG if prog.is_cfg_generic(b) else None)
+        key = b["key"].replace("crate::", "")
+        for cbi, t in v.calls():
+            name = ir.callee_name(t["fn"])
+            fld = _producer_field(name)
+            if fld is None or t["dest"]["p"] or t.get("target") is None:
+                continue
+            n_sites += 1
+            d = t["dest"]["l"]
+            if d == 0:
+                rep.ok("%s|carry:%s" % (key, (name or "?").split("::")[-1]), v.where(cbi), "the pair is the return value")
+                continue
+            start = (t["target"], 0, frozenset([("f", d, fld)]))
+            seen = set()
+            stack = [start]
+            bad = None
+            while stack and bad is None:
+                bi, si, holders = stack.pop()
+                if (bi, si, holders) in seen:
+                    continue
+                seen.add((bi, si, holders))
+                if bi not in v.reachable:
+                    continue
+                blk = v.blocks[bi]
+                done = False
+                for j in range(si, len(blk["stmts"])):
+                    s = blk["stmts"][j]
+                    if s["s"] != "assign":
+                        continue
+                    rv, pl = s["rv"], s["pl"]
+                    ops = list(ir.operands_of_rvalue(rv))
+                    if rv["r"] in ("ref", "discr", "len"):
+                        ops.append({"o": "copy", "l": rv["pl"]["l"], "p": rv["pl"]["p"]})
+                    hit = None
+                    for o in ops:
+                        hit = hit or _reads(o, holders)
+                    # index locals of the destination place
+                    for e in pl["p"]:
+                        if isinstance(e, list) and e[0] == "idx" and ("l", e[1]) in holders:
+                            hit = ("l", e[1])
+                    if hit is not None:
+                        a = rv.get("a") if rv["r"] == "use" else None
+                        pure = (rv["r"] == "use" and a is not None and a.get("o") in ("copy", "move") and not pl["p"]
+                                and (a["p"] == [] or (hit[0] == "f" and len(a["p"]) == 1)))
+                        if pure and pl["l"] != 0:
+                            nh = set(holders)
+                            if a["o"] == "move":
+                                nh.discard(hit)
+                            nh.discard(("l", pl["l"]))
+                            nh.add(("l", pl["l"]))
+                            holders = frozenset(nh)
+                            continue
+                        done = True     # a real use (or the return place)
+                        break
+                    if not pl["p"]:
+                        nh = frozenset(h for h in holders if not (h[1] == pl["l"]))
+                        if nh != holders:
+                            holders = nh
+                            if not holders:
+                                bad = ("overwritten", v.where(bi))
+                                break
+                if done or bad:
+                    continue
+                tt = blk["term"]
+                k = tt["t"]
+                if k == "call":
+                    if any(_reads(a_, holders) for a_ in tt["args"]):
+                        continue
+                    if not tt["dest"]["p"]:
+                        nh = frozenset(h for h in holders if h[1] != tt["dest"]["l"])
+                        if not nh:
+                            bad = ("overwritten", v.where(bi))
+                            continue
+                        holders = nh
+                    if tt.get("target") is not None:
+                        stack.append((tt["target"], 0, holders))
+                elif k == "switch":
+                    if _reads(tt["discr"], holders):
+                        continue
+                    for s2 in v.succ.get(bi, []):
+                        stack.append((s2, 0, holders))
+                elif k == "assert":
+                    if _reads(tt["cond"], holders):
+                        continue
+                    for s2 in v.succ.get(bi, []):
+                        stack.append((s2, 0, holders))
+                elif k == "return":
+                    bad = ("abandoned at return", v.where(bi))
+                else:
+                    for s2 in v.succ.get(bi, []):
+                        stack.append((s2, 0, holders))
+            k1 = "%s|carry:%s" % (key, (name or "?").split("::")[-1])
+            if bad:
+                rep.violation(k1, v.where(cbi), "the carry component returned by %s at %s is %s (%s) without having been "
+                              "read on that path: a carry between limbs is dropped" % (
+                                  (name or "?").replace("crate::", ""), v.where(cbi), bad[0], bad[1]))
+            else:
+                rep.ok(k1, v.where(cbi), "read on every path")
+    rep.analysed = {"build_config": config, "files": sorted(files), "pair_producing_call_sites": n_sites, "label": label}
+    if floor:
+        rep.floor("pair-producing call sites" + ("-" + label if label else ""), n_sites, floor)
     return rep
